@@ -134,6 +134,7 @@ func run(e *core.Env) {
 	// mesh changes; routers go on announcing themselves every five minutes and clean their tables
 	// once a minute. What was a converged honest mesh stays one: the requests below are judged
 	// without looking at the tables again.
+	aged := false
 	if converged && n <= 10 && tp.Chance(1, 4) {
 		up := 6*time.Minute + time.Duration(tp.Intn(1200))*time.Second
 		if tp.Chance(1, 2) {
@@ -148,6 +149,7 @@ func run(e *core.Env) {
 		}
 		finish("long uptime")
 		e.Probe("mesh_up_for_minutes_before_the_requests")
+		aged = true
 	}
 
 	probeBase := 0
@@ -181,6 +183,11 @@ func run(e *core.Env) {
 
 	// ---- Phase A: fault-free routed request / reply ----
 	nPairs := 1 + tp.Intn(6)
+	if aged {
+		// many pairs in an aged mesh: what a router no longer knows exactly it hands to the
+		// nearest address it knows, which is right for some destinations and wrong for others
+		nPairs = 12 + tp.Intn(20)
+	}
 	if !converged {
 		nPairs = 0
 		e.Probe("premise_mesh_not_converged")
